@@ -65,6 +65,51 @@ class UpdateMeta(Contract):
                 ('counts-listed-as-attributes', all(k in a['_ncattrs'] for k in ('NLAYS', 'NROWS', 'NCOLS')))]
 
 
+    # -- replay on the real function -----------------------------------------------------------------------------------
+    def concretize(self, model, inp):
+        from pyvc.verify import model_value
+        return dict(stale=self.stale, has_dt=self.has_dt, n={k: model_value(model, v) for k, v in self.n.items()})
+
+    def concretize_without_model(self, inp):
+        return dict(stale=self.stale, has_dt=self.has_dt, n=dict(LAY=3, ROW=4, COL=5, TSTEP=2))
+
+    def replay(self, c):
+        from rtc import harness as H, ioapi as IOH
+        P = H.real()
+        out = None
+        for n in (c['n'], dict(LAY=3, ROW=4, COL=5, TSTEP=2)):
+            n = {k: int(v) for k, v in n.items()}
+            if not all(1 <= v <= 30 for v in n.values()):
+                continue
+            f = IOH.make_ioapi(P, nt=n['TSTEP'], nz=n['LAY'], ny=n['ROW'], nx=n['COL'])
+            if c['stale']:
+                f.NLAYS, f.NROWS, f.NCOLS = 99, 98, 97
+            else:
+                for a in ('NLAYS', 'NROWS', 'NCOLS'):
+                    if a in f.ncattrs():
+                        delattr(f, a)
+            f.dimensions['TSTEP'].setunlimited(False)
+            if not c['has_dt'] and 'DATE-TIME' in f.dimensions and False:
+                pass
+            try:
+                f.updatemeta()
+            except Exception as e:
+                return False, dict(raised=type(e).__name__, message=str(e)[:160], dims=n)
+            num = lambda a: (int(getattr(f, a)) if hasattr(f, a) else None)
+            got = dict(NLAYS=num('NLAYS'), NROWS=num('NROWS'), NCOLS=num('NCOLS'), unlimited=bool(f.dimensions['TSTEP'].isunlimited()),
+                       date_time=len(f.dimensions['DATE-TIME']) if 'DATE-TIME' in f.dimensions else None)
+            try:
+                wf = IOH.ioapi_wf(f)
+            except Exception as e:
+                wf = 'invariant check raised %s: %s' % (type(e).__name__, str(e)[:80])
+            ok = got == dict(NLAYS=n['LAY'], NROWS=n['ROW'], NCOLS=n['COL'], unlimited=True, date_time=2) and wf is None
+            r = (ok, dict(dims=n, after=got, invariant=wf))
+            if not ok:
+                return r
+            out = out or r
+        return out
+
+
 CONTRACTS = [UpdateMeta(s, h) for s in (False, True) for h in (False, True)]
 
 
